@@ -516,8 +516,8 @@ def check_loop_ends_on_marker(ck: Checker, rid: str, f, cfg: CFG, loop: Node, zn
                 lab = 'T'
             elif isinstance(op, ast.IsNot) and is_none(r):
                 lab = 'F'
-            elif isinstance(op, (ast.Eq, ast.NotEq)) and isinstance(r, ast.Name) and (not marker_names or r.id in marker_names):
-                lab = 'T' if isinstance(op, ast.Eq) else 'F'
+            elif isinstance(op, (ast.Eq, ast.NotEq, ast.Is, ast.IsNot)) and isinstance(r, ast.Name) and (not marker_names or r.id in marker_names):
+                lab = 'T' if isinstance(op, (ast.Eq, ast.Is)) else 'F'
             if lab is not None:
                 term[n.id] = ({'T': 'F', 'F': 'T'}[lab]) if flip else lab
     outside = {k.id for k in cfg.nodes if loop.id not in k.loops and k.id != loop.id and k.id not in (cfg.exit_raise,)}
